@@ -7,8 +7,8 @@
   target, exactly multiplier × ORIGINAL value of the decomposed resource — linearity, for every commutative-semiring
   interpretation; the expanded dictionary satisfies the PATH-SUM recurrence W(r,b) = w(r,b) + Σ_t w(r,t)·W(t,b) with only base
   resources as targets (C15_expansion_is_path_sum, unconditional: Kahn's algorithm as modelled is proved to return a valid order).
-  Every cyclic dictionary is rejected (C15_cyclic_dictionary_rejected).  Not proved: the converse (that `aggOrder` returns none
-  ONLY for cyclic dictionaries, i.e. Kahn's algorithm never gets stuck on an acyclic graph); exercised exhaustively on 3|4 names.
+  A dictionary is rejected EXACTLY when it is cyclic (C15_cyclic_dictionary_rejected, C15_acyclic_dictionary_accepted: the model of
+  graphlib's sorter fails exactly on the graphs with a cycle).
 -/
 import BartiqModel.Aggregate
 import BartiqProofs.AggLemmas
@@ -31,7 +31,18 @@ theorem C15_cyclic_dictionary_rejected (d : AggDict) (remove : Bool) (c : CRouti
     ∃ m, addAggregatedResources d remove c = .error (.value m) :=
   C15_cycle_rejected d remove c (aggOrder_none_of_cycle d r h)
 
-/-- and only a cyclic dictionary is: otherwise a result is returned -/
+/-- **… and ONLY a cyclic dictionary is rejected**: for a dictionary with distinct keys in which no decomposed resource is
+    decomposed into itself, a result is returned (the sorter never gets stuck on an acyclic graph: GraphLemmas.staticOrder_none_iff) -/
+theorem C15_acyclic_dictionary_accepted (d : AggDict) (hk : d.keys.Nodup) (remove : Bool) (c : CRoutine)
+    (hac : ¬ ∃ r, DecomposesInto d r r) : ∃ c', addAggregatedResources d remove c = .ok c' := by
+  cases ho : aggOrder d with
+  | none => exact absurd ((aggOrder_none_iff d hk).mp ho) hac
+  | some order =>
+    unfold addAggregatedResources expandAggregation
+    rw [ho]
+    exact ⟨_, rfl⟩
+
+/-- the same in the form used above: an order was found -/
 theorem C15_acyclic_accepted (d : AggDict) (remove : Bool) (c : CRoutine) (order : List String) (h : aggOrder d = some order) :
     ∃ c', addAggregatedResources d remove c = .ok c' := by
   unfold addAggregatedResources expandAggregation
